@@ -10,6 +10,7 @@ import DirectVerif.Model.Recon
   lookup and the yielded pair that `Recon.rstep` implements; `_process_output` scales along the batch
   axis, takes the modulus, adds the channel axis and crops, in this order.
 -/
+set_option linter.unusedSimpArgs false
 namespace DirectVerif.Bridge.C14
 open DirectVerif DirectVerif.Recon DirectVerif.Gen.C14
 
@@ -19,8 +20,9 @@ theorem recon_counter_next_eq (sc n vs : Int) : recon_counter_next sc n vs = sc 
 
 theorem recon_yield_cond_eq (sc n vs : Nat) :
     recon_yield_cond sc n vs = decide (sc = vs) := by
-  simp only [recon_yield_cond]
-  rw [Bool.eq_iff_iff]; simp only [beq_iff_eq, decide_eq_true_eq]; omega
+  simp only [recon_yield_cond] <;>
+    (rw [Bool.eq_iff_iff]
+     simp only [Bool.or_eq_true, Bool.and_eq_true, beq_iff_eq, decide_eq_true_eq] <;> omega)
 
 /-- the window of `writeSlice` is the translated one, clipped to the volume as torch does -/
 theorem write_window_eq {β} (cur outs : List β) (sc : Nat) (out : List β)
